@@ -45,15 +45,21 @@ fn main() {
             rayon::ThreadPoolBuilder::new().num_threads(n).build_global().ok();
         }
     }
+    // enumeration-style checks replay by re-running the enumeration and looking for the recorded signature
+    if let Some(path) = &replay {
+        if matches!(prop, "C06" | "C07" | "C08" | "C15" | "C16" | "C17" | "C19") {
+            let v: serde_json::Value = serde_json::from_str(&std::fs::read_to_string(path).expect("replay file")).expect("json");
+            std::env::set_var("VERIF_REPLAY_SIG", v["signature"].as_str().unwrap_or(""));
+            std::env::set_var("VERIF_REPLAY_PATH", path);
+        }
+    }
+    let tier = if std::env::var("VERIF_REPLAY_SIG").is_ok() { "quick".to_string() } else { tier };
     let code = match prop {
         "C01" => explorer(prop, &tier, replay, c01::specs(&tier), &c01::C01),
         "C02" => explorer(prop, &tier, replay, c02::specs(&tier), &c02::C02),
         "C03" => explorer(prop, &tier, replay, c03::specs(&tier, prop), &c03::C03),
         "C05" => explorer(prop, &tier, replay, c05::specs(&tier), &c05::C05),
         "C06" => {
-            if replay.is_some() {
-                eprintln!("C06 replay: the violation file names the option record and size; rerun ./check C06 quick");
-            }
             c06::run(&tier)
         }
         "C07" => c07::run(&tier),
